@@ -31,6 +31,9 @@ type Contract struct {
 	Key     string
 	Pkg     *packages.Package
 	Props   []string
+	// PropQual[id] == "frame": the function serves property id only through its frame / purity / ordering obligations
+	// (class R and the aliasing guards): its functional clauses belong to other properties
+	PropQual map[string]string
 	Clauses []*Clause
 	Fn      *FuncInfo
 	BindErr string
@@ -138,7 +141,16 @@ func parseContractFile(p *Program, pkg *packages.Package, f *ast.File) ([]*Contr
 			cl.Kind = first
 			cl.Text = strings.TrimSpace(rest)
 			if cl.Kind == "props" {
-				cur.Props = append(cur.Props, strings.Fields(cl.Text)...)
+				for _, tok := range strings.Fields(cl.Text) {
+					id, qual, _ := strings.Cut(tok, ":")
+					cur.Props = append(cur.Props, id)
+					if qual != "" {
+						if cur.PropQual == nil {
+							cur.PropQual = map[string]string{}
+						}
+						cur.PropQual[id] = qual
+					}
+				}
 			}
 			for _, o := range cur.Clauses {
 				if o.Kind == cl.Kind && o.Loop == cl.Loop && o.Lit == cl.Lit {
